@@ -448,7 +448,17 @@ func (env *SpecEnv) field(base *Val, name string) *Val {
 	}
 	si := env.eng.structSort(cur.T)
 	if idx := si.fieldIndex(name); idx >= 0 {
-		return env.eng.getField(cur, idx)
+		r := env.eng.getField(cur, idx)
+		// a field read yields a well-typed value (integer range, slice header well-formedness)
+		if env.quant == 0 && env.side != nil {
+			switch r.T.Underlying().(type) {
+			case *types.Basic, *types.Slice:
+				if f := env.eng.typeFact(r, ""); f != "true" {
+					*env.side = append(*env.side, f)
+				}
+			}
+		}
+		return r
 	}
 	// promoted through embedded fields
 	for i := 0; i < st.NumFields(); i++ {
